@@ -93,6 +93,13 @@ type UpServer struct {
 	hs            *http.Server
 	down          bool
 	extra         []io.Closer
+
+	// ReplayOnReuse: when a wire id arrives a second time on one connection,
+	// the reply sent for its first use goes out once more before the new one
+	// (a late duplicate - legal on a datagram path).  A client that never
+	// re-uses an id on a connection cannot see this.
+	ReplayOnReuse bool
+	sentByID      map[[2]int][]byte
 }
 
 type upConn struct {
@@ -676,6 +683,21 @@ func (u *UpServer) handle(b []byte, proto string, conn int, qc qctx, reply func(
 		switch act.Kind {
 		case "reply", "":
 			b, ser, key := mkReply()
+			if u.ReplayOnReuse {
+				k := [2]int{conn, int(q.WireID)}
+				u.mu.Lock()
+				if u.sentByID == nil {
+					u.sentByID = map[[2]int][]byte{}
+				}
+				old := u.sentByID[k]
+				u.sentByID[k] = b
+				u.mu.Unlock()
+				if old != nil {
+					s.Fault("up_replay_on_id_reuse")
+					s.Logf("up_replay", "%s conn=%d id=%d", u.Spec.Tag, conn, q.WireID)
+					reply(old)
+				}
+			}
 			logReply("reply", ser, key, len(b))
 			reply(b)
 			done()
